@@ -2,7 +2,7 @@
 
 PROP = {'modules': ['AmVerif.Props.C11'],
  'engines': [{'name': 'dir', 'quick': 300, 'thorough': 3000}],
- 'rule': 'cases 0-79: the 20 small trees of C04 x the four source kinds (archives with and without directory members), 10 loads each over 5 '
+ 'rule': 'cases 0-79: the 20 small trees of C04 x the four source kinds (archives with a member per directory / with as few as possible), 10 loads each over 5 '
          'extension lists; later cases: random trees as in C04 through one source kind each, 1/4 with one or two unreadable directories (read_dir '
          'fails with PermissionDenied), 6-16 ops drawn from load_dir / load_rec_dir (plain and Arc<T>) / iter / iter_cached after loading a random '
          'asset, over 7 asset types with extension lists [], [""], [x], [a,b], [a,b,c], [x,""], [b,a,x], on random directories, the root, missing '
@@ -19,5 +19,6 @@ META = {'text': "For every source view: load_dir ids are strictly sorted (no dup
  'design_ref': 'DESIGN.md §6 C11',
  'note': 'Trusted: Lean kernel; sort+dedup, cache and source views modelled. Tie: the dir engine runs load_dir / load_rec_dir / iter / iter_cached '
          '(and Arc<T>) through AssetCache over the real FileSystem, Zip, Tar, Embedded and a wrapper with unreadable directories, diffs against the '
-         'model and checks the generated tree as oracle. Shares F-C04 and the empty-archive root with C04.',
+         'model and checks the generated tree as oracle. The two defects shared with C04 (F-C04 archive-implicit-dir-missing, '
+         'archive-empty-root-missing) are repaired; their witnesses stay in corpus/ and pass.',
  'technique': 'Lean 4 proof over executable model + differential correspondence'}
